@@ -184,14 +184,14 @@ CLAIMED = {
             'Deductive part: CSVEntry.is_row_valid is executed for every combination of the deciding field values (576 paths): False '
             'exactly for the documented reasons; OAGDatabase.add against the contracts of its callees: skipped only for an unknown '
             'airport or an implausible distance, otherwise one flight record, its instances and the recorded count, with the '
-            'defaulted (start / end of data year) effective range passed to both; WritableDatabase._add_schedule for ranges of 1..3 '
-            'consecutive dates with symbolic start date, weekday set, local times, arrival day offset -1..2, zones and offsets: '
-            'exactly one instance per operating, well-ordered date, at instants wall - utc_offset(zone, wall), day number, flight '
-            'id, returned count, misordered instances dropped and warned about; _distance_check decision rule and Geod argument '
+            'defaulted (start / end of data year) effective range passed to both; WritableDatabase._add_schedule for effective ranges '
+            'of ANY length by an inductive invariant over the date loop (counting functions of included / dropped dates; ghost '
+            'source date per row), and again unrolled for 1..3 dates, with symbolic start date, weekday set, local times, arrival '
+            'day offset -1..2, zones and offsets: exactly one instance per operating, well-ordered date, at instants '
+            'wall - utc_offset(zone, wall), day number, flight id, returned count, misordered instances dropped and warned about; _distance_check decision rule and Geod argument '
             'order (known finding: lat/lon exchanged); _make_dow_mask. Bounded part: generated CSV rows (open-ended, single-day, '
             'DST dates, misordered) imported by the real from_csv_row + add into SQLite and compared with a datetime/zoneinfo oracle.',
-            'pandas date_range / Timestamp arithmetic and zoneinfo offsets are assumed contracts (utc_offset uninterpreted); ranges '
-            'longer than three dates follow only by the per-date independence of the loop body (not proved by induction); CSV text '
+            'pandas date_range / Timestamp arithmetic and zoneinfo offsets are assumed contracts (utc_offset uninterpreted); CSV text '
             'parsing and SQLite are bounded / trusted',
             'contract-based deductive verification (AST->z3) + bounded import stand-in', 'DESIGN 2 C13'),
     'C02': ('other',
